@@ -6,6 +6,8 @@ import (
 	"go/ast"
 	"go/printer"
 	"go/token"
+	"os"
+	"path/filepath"
 	"strings"
 )
 
@@ -480,6 +482,109 @@ func extractC15() *lean {
 	l.def("authenticateReceiver", "String", fmt.Sprintf("%q", recv), recv)
 	l.def("authenticatorPackageVars", "List String", leanStrList(pkgVars), pkgVars)
 	l.def("authenticateSetsFlag", "Bool", c15Bool(setsAuth), setsAuth)
+
+	// every envelope handed to Connection.Send is freshly allocated (the connection only queues the pointer): no sync.Pool in the
+	// package, and at every Send site the envelope and its message are composite literals (directly or through a local variable
+	// that is only ever assigned a composite literal)
+	var v2files []string
+	ents, err := os.ReadDir(filepath.Join(repo, "network/transport/v2"))
+	must(err)
+	for _, e := range ents {
+		if n := e.Name(); strings.HasSuffix(n, ".go") && !strings.HasSuffix(n, "_test.go") && !strings.HasSuffix(n, ".pb.go") && !strings.HasSuffix(n, "_mock.go") {
+			v2files = append(v2files, n)
+		}
+	}
+	var pools, sendArgs []string
+	for _, name := range v2files {
+		_, f := parseFile("network/transport/v2/" + name)
+		ast.Inspect(f, func(n ast.Node) bool {
+			if se, ok := n.(*ast.SelectorExpr); ok && exprString(se) == "sync.Pool" {
+				pools = append(pools, name)
+			}
+			return true
+		})
+		for _, d := range f.Decls {
+			fd, ok := d.(*ast.FuncDecl)
+			if !ok || fd.Body == nil {
+				continue
+			}
+			// local variables: every assignment's right-hand side
+			assigned := map[string][]ast.Expr{}
+			ast.Inspect(fd, func(n ast.Node) bool {
+				if as, ok := n.(*ast.AssignStmt); ok && len(as.Lhs) == len(as.Rhs) {
+					for i, lhs := range as.Lhs {
+						if id, ok := lhs.(*ast.Ident); ok {
+							assigned[id.Name] = append(assigned[id.Name], as.Rhs[i])
+						}
+					}
+				}
+				return true
+			})
+			var fresh func(e ast.Expr, depth int) string
+			fresh = func(e ast.Expr, depth int) string {
+				if u, ok := e.(*ast.UnaryExpr); ok && u.Op == token.AND {
+					if cl, ok := u.X.(*ast.CompositeLit); ok {
+						r := "&" + exprString(cl.Type) + "{}"
+						for _, el := range cl.Elts {
+							if kv, ok := el.(*ast.KeyValueExpr); ok && exprString(kv.Key) == "Message" {
+								r += "<-" + fresh(kv.Value, depth)
+							}
+						}
+						return r
+					}
+				}
+				if id, ok := e.(*ast.Ident); ok && depth < 3 && len(assigned[id.Name]) > 0 {
+					var kinds []string
+					for _, rhs := range assigned[id.Name] {
+						k := fresh(rhs, depth+1)
+						if len(kinds) == 0 || kinds[len(kinds)-1] != k {
+							kinds = append(kinds, k)
+						}
+					}
+					return strings.Join(kinds, "|")
+				}
+				return "NOT-FRESH:" + c15Src(e)
+			}
+			ast.Inspect(fd, func(n ast.Node) bool {
+				if c, ok := n.(*ast.CallExpr); ok && len(c.Args) == 3 {
+					if se, ok := c.Fun.(*ast.SelectorExpr); ok && se.Sel.Name == "Send" {
+						sendArgs = append(sendArgs, fd.Name.Name+":"+fresh(c.Args[1], 0))
+					}
+				}
+				return true
+			})
+		}
+	}
+	l.def("v2SyncPools", "List String", leanStrList(pools), pools)
+	l.def("v2SendEnvelopes", "List String", leanStrList(sendArgs), sendArgs)
+
+	// decryptPAL is a function of the node's DID/keys and the header it is given: the fields of `protocol` and the ones decryptPAL touches
+	_, protoF := parseFile("network/transport/v2/protocol.go")
+	var protoFields, palReads []string
+	ast.Inspect(protoF, func(n ast.Node) bool {
+		if ts, ok := n.(*ast.TypeSpec); ok && ts.Name.Name == "protocol" {
+			if st, ok := ts.Type.(*ast.StructType); ok {
+				for _, f := range st.Fields.List {
+					for _, nm := range f.Names {
+						protoFields = append(protoFields, nm.Name+" "+c15Src(f.Type))
+					}
+				}
+			}
+		}
+		return true
+	})
+	if fd := funcDecl(protoF, "decryptPAL"); fd != nil {
+		seen := map[string]bool{}
+		ast.Inspect(fd.Body, func(n ast.Node) bool {
+			if se, ok := n.(*ast.SelectorExpr); ok && exprString(se.X) == "p" && !seen[se.Sel.Name] {
+				seen[se.Sel.Name] = true
+				palReads = append(palReads, se.Sel.Name)
+			}
+			return true
+		})
+	}
+	l.def("protocolFields", "List String", leanStrList(protoFields), protoFields)
+	l.def("decryptPALTouches", "List String", leanStrList(palReads), palReads)
 	return l
 }
 
